@@ -455,6 +455,17 @@ def run_batch(cfg, cases, shards=None, timeout=600, wrapper=None, env=None, keep
         for c in again[:32]:
             results[c["id"]] = run_batch(cfg, [c], shards=1, timeout=timeout, wrapper=wrapper, env=env, cmd=cmd,
                                          case_timeout=case_timeout, _retry=True)[0]
+    # A case that hit the per-case watchdog is judged on a run of its own with four times the allowance before anybody
+    # believes it: on a loaded machine (other checks, builds, sixteen shards) a case that normally takes seconds can
+    # exceed the watchdog without hanging. Only what times out again alone stays a timeout.
+    if not _retry:
+        slow = [c for c in cases if results.get(c["id"], {}).get("abort", {}).get("why") == "timeout"]
+        for c in slow[:6]:
+            r2 = run_batch(cfg, [c], shards=1, timeout=max(timeout, 600), wrapper=wrapper, env=env, cmd=cmd,
+                           case_timeout=4 * (case_timeout or CASE_TIMEOUT), _retry=True)[0]
+            if "abort" in r2 and r2["abort"].get("why") == "timeout":
+                r2["abort"]["status"] = list(r2["abort"].get("status", [])) + ["timed out again when run alone"]
+            results[c["id"]] = r2
     missing = [c["id"] for c in cases if c["id"] not in results]
     if missing:
         raise Inconclusive("runner produced no result for %d cases (e.g. %s)" % (len(missing), missing[0]))
